@@ -96,6 +96,33 @@ def pblRange (pfx : Option Bytes) (start : Bytes) (startNil : Bool) : Option (By
 def rangeItems (m : KV) (lo : Bytes) (hi : Option Bytes) : KV :=
   m.filter (fun kv => lexLe lo kv.1 && (match hi with | some h => lexLt kv.1 h | none => true))
 
+/-! ### replay of a goleveldb batch into a flushable batch (kvdb/leveldb `replayer`) -/
+
+/-- a call on a `kvdb.Writer`; the value of a `Put` may be the nil slice (`none`) -/
+inductive WCall where
+  | put (k : Bytes) (v : Option Bytes)
+  | del (k : Bytes)
+deriving DecidableEq, Repr
+
+/-- contract of goleveldb's `Batch.Replay` (observed, not proved): the records in insertion order,
+    an empty value handed over as nil -/
+def ldbEngineReplay (b : List Op) : List WCall :=
+  b.map (fun op => match op with
+    | .put k v => WCall.put k (if v.isEmpty then none else some v)
+    | .del k => WCall.del k)
+
+/-- kvdb/leveldb `replayer.Put` / `replayer.Delete`: forwards to the writer, a nil value as an
+    empty slice (the test is regenerated from the source) -/
+def ldbReplayer : WCall → WCall
+  | .put k v => .put k (if Gen.Kv.ldbReplayNilValue v.isNone then some [] else v)
+  | .del k => .del k
+
+/-- what a flushable `cacheBatch` records for a call (`kv{k, nil}` = deletion) -/
+def cacheBatchOp : WCall → Op
+  | .put k (some v) => .put k v
+  | .put k none => .del k
+  | .del k => .del k
+
 /-- pebble's iterator wrapper: `First` instead of the first `Next`. `items` = what the engine
     iterator ranges over, `pos` = engine position (`none` = not positioned yet). -/
 structure PebbleIt where
